@@ -172,6 +172,22 @@ func runCheck(o *checkOpts) int {
 		}
 		obls = append(obls, tr.obls...)
 	}
+	for _, or := range eng.orphans {
+		has := props == nil
+		for _, p := range or.c.Props {
+			if props[p] {
+				has = true
+			}
+		}
+		if !has || (o.funcs != "" && !strings.Contains(or.c.Func, o.funcs)) {
+			continue
+		}
+		short := strings.TrimPrefix(or.pkg, "github.com/google/certificate-transparency-go/")
+		obls = append(obls, &Obligation{Name: fmt.Sprintf("%s.%s/contract-attached#1", short, or.c.Func), Kind: "contract-attached", Fn: short + "." + or.c.Func, Props: or.c.Props,
+			Expect: "unsat", Clause: "the function the contract is written on exists", Syntactic: true, Solver: "syntactic", Status: "failed", Answer: "syntactic",
+			Pos: fmt.Sprintf("%s:%d", or.c.File, or.c.Line),
+			Model: fmt.Sprintf("no function %s in %s: the %d ensures / %d site clauses of its contract cannot be checked", or.c.Func, or.pkg, len(or.c.Ensures), len(or.c.Asserts))})
+	}
 	lemObls, lerr := eng.lemmaObligations(props)
 	if lerr != nil {
 		fmt.Printf("ENGINE-ERROR %v\n", lerr)
